@@ -808,6 +808,41 @@ static void do_bigitem(char* line) {
   munmap(buf, total);
 }
 
+/* ------------------------------------------------------------------ stream: hugecount (C20 / C02, thorough + search)
+ * "<hex>": cbor_load of a definite MAP whose declared pair count lies beyond 2^31 (its storage: tens of GiB of address space,
+ * served here by an untouched MAP_NORESERVE mapping; arrays are not used: cbor_new_definite_array NULL-fills its storage),
+ * followed by a few members only: the decoder must still be waiting for the rest (NOTENOUGHDATA at the end of the input). */
+static void* hc_blocks[8]; static size_t hc_sizes[8];
+static void* hc_malloc(size_t n) {
+  if (n < ((size_t)1 << 30)) return malloc(n);
+  void* p = mmap(NULL, n, PROT_READ | PROT_WRITE, MAP_PRIVATE | MAP_ANONYMOUS | MAP_NORESERVE, -1, 0);
+  if (p == MAP_FAILED) return NULL;
+  for (int i = 0; i < 8; i++) if (!hc_blocks[i]) { hc_blocks[i] = p; hc_sizes[i] = n; return p; }
+  munmap(p, n); return NULL;
+}
+static void hc_free(void* p) {
+  for (int i = 0; i < 8; i++) if (p && hc_blocks[i] == p) { munmap(p, hc_sizes[i]); hc_blocks[i] = NULL; return; }
+  free(p);
+}
+static void* hc_realloc(void* p, size_t n) {
+  for (int i = 0; i < 8; i++) if (p && hc_blocks[i] == p) return NULL;
+  return n < ((size_t)1 << 30) ? realloc(p, n) : NULL;
+}
+static void do_hugecount(char* line) {
+  size_t n; unsigned char* buf = parse_hex(line, &n);
+  cbor_set_allocs(hc_malloc, hc_realloc, hc_free);
+  struct cbor_load_result res; memset(&res, 0xAA, sizeof res);
+  cbor_item_t* it = cbor_load(buf, n, &res);
+  if (!it) ob_printf("err %s %zu %zu", err_s(res.error.code), res.error.position, res.read);
+  else {
+    ob_printf("ok %zu", res.read);
+    if (cbor_isa_map(it)) ob_printf(" map size=%zu allocated=%zu", cbor_map_size(it), cbor_map_allocated(it));
+    cbor_decref(&it);
+  }
+  cbor_set_allocs(hx_malloc, hx_realloc, hx_free);
+  free(buf);
+}
+
 /* ------------------------------------------------------------------ stream: seq (C14 CBOR sequences) */
 static void do_seq(char* line) {
   size_t n; unsigned char* all = parse_hex(line, &n);
@@ -1180,6 +1215,7 @@ int main(int argc, char** argv) {
   else if (!strcmp(stream, "seq")) f = do_seq;
   else if (!strcmp(stream, "bigsuffix")) f = do_bigsuffix;
   else if (!strcmp(stream, "bigitem")) f = do_bigitem;
+  else if (!strcmp(stream, "hugecount")) f = do_hugecount;
   else if (!strcmp(stream, "utf8")) f = do_utf8;
   else if (!strcmp(stream, "dfa")) f = do_dfa;
   else if (!strcmp(stream, "mem")) f = do_mem;
